@@ -815,7 +815,20 @@ static void pkenc_case(World &W)
 	tmcg_openpgp_octets_t body; tmcg_openpgp_byte_t tag = PGP::PacketBodyExtract(pkesk, 0, body);
 	if (tag != 1 || body.size() < 12) { W.violate("C20", "own_pkesk_unreadable", "emitted PKESK packet cannot be re-read"); return; }
 	const size_t fixed = 10; // version, key ID, algorithm
-	if (fault == 1) { size_t off = fixed + 2 + (size_t)fa % (body.size() - fixed - 2); body[off] ^= (tmcg_openpgp_byte_t)(1 << (fb % 8)); repacket(1, body, pkesk); must_fail = true; what = "bit flipped in the encrypted session key (offset " + std::to_string(off) + ")"; W.res.cnt["fault.art_flip_ciphertext"]++; }
+	if (fault == 1)
+	{
+		// only octets that carry the value: the two-octet bit counts of the MPIs (and the length octet of the wrapped
+		// key) can change without changing the value, and the lengths depend on libgcrypt-internal randomness
+		std::vector<std::pair<size_t, size_t> > pay; size_t o = fixed; int nm = (alg == 1) ? 2 : 1;
+		for (int q = 0; q < nm && o + 2 <= body.size(); q++) { size_t nb = ((((size_t)body[o] << 8) + body[o + 1]) + 7) / 8; if (o + 2 + nb > body.size()) break; if (nb) pay.push_back(std::make_pair(o + 2, nb)); o += 2 + nb; }
+		if (alg == 2 && o + 1 < body.size()) pay.push_back(std::make_pair(o + 1, body.size() - o - 1));
+		size_t total = 0; for (size_t q = 0; q < pay.size(); q++) total += pay[q].second;
+		if (total)
+		{
+			size_t r = (size_t)fa % total, off = 0; for (size_t q = 0; q < pay.size(); q++) { if (r < pay[q].second) { off = pay[q].first + r; break; } r -= pay[q].second; }
+			body[off] ^= (tmcg_openpgp_byte_t)(1 << (fb % 8)); repacket(1, body, pkesk); must_fail = true; what = "bit flipped in the encrypted session key"; W.res.cnt["fault.art_flip_ciphertext"]++;
+		}
+	}
 	else if (fault == 3) { size_t keep = (size_t)fa % body.size(); body.resize(keep); repacket(1, body, pkesk); must_fail = true; what = "PKESK body truncated to " + std::to_string(keep); W.res.cnt["fault.art_trunc_reencoded"]++; }
 	tmcg_openpgp_octets_t wire = pkesk; wire.insert(wire.end(), seipd.begin(), seipd.end());
 	// ---- recipient node
@@ -853,7 +866,9 @@ static void pkenc_case(World &W)
 	// RSA and ElGamal give back algorithm || key || checksum, ECDH algorithm || key (Message::Decrypt takes both forms)
 	bool same_key = got && (sk.size() == seskey.size() || sk.size() + 2 == seskey.size()) && std::equal(sk.begin(), sk.end(), seskey.begin());
 	bool plaintext_back = decrypted && content == data;
-	W.S.hist.add(H_RESULT, (parsed ? 1 : 0) | (got ? 2 : 0) | (same_key ? 4 : 0) | (plaintext_back ? 8 : 0), (uint64_t)fault, (uint64_t)alg);
+	// (how far a damaged packet gets - parsed, decrypted to something - depends on lengths that libgcrypt's own
+	// randomness decides; only what is judged enters the fingerprint)
+	W.S.hist.add(H_RESULT, (must_fail ? 0 : ((parsed ? 1 : 0) | (got ? 2 : 0))) | (same_key ? 4 : 0) | (plaintext_back ? 8 : 0), (uint64_t)fault, (uint64_t)alg);
 	std::string id = std::string(alg == 0 ? "RSA" : (alg == 1 ? "ElGamal" : "ECDH P-256")) + ", " + std::to_string(data.size()) + " octets";
 	if (!must_fail)
 	{
